@@ -68,6 +68,10 @@ def gen_cases(rng, tier):
                     mode = rng.choice(MODES)
                     ops.append(["q_bin", op, f"{a}@{u}", f"{b}@{v}", mode])
                 ops.append(["q_conv", f"{rng.choice(['0', '5/2', '-1/3'])}@{u}", v, _money.MODE])
+                # text naming one currency with another currency as explicit
+                # unit is a conversion, too
+                ops.append(["q_parse", rng.choice(["-", "Money"]),
+                            f"{rng.choice(['12.34567', '5', '0', '-7/3'])} {u}", v, _money.MODE])
         cases.append({"ops": ops, "fork": True, "tags": ["mixed-pairs"]})
     # (c) user currencies
     n_user = 30 if tier == "thorough" else 6
@@ -189,6 +193,10 @@ def oracle(case, impl):
         elif o[0] == "q_conv":
             a, _, u = o[1].rpartition("@")
             v = o[2]
+            if u != v and out != "err UnitConversionError":
+                fails.append({"site": "money:mixed", "msg": f"{o} -> {out}"})
+        elif o[0] == "q_parse" and o[3] != "-":
+            u, v = o[2].split()[-1], o[3]
             if u != v and out != "err UnitConversionError":
                 fails.append({"site": "money:mixed", "msg": f"{o} -> {out}"})
         elif o[0] == "q_mk":
